@@ -435,6 +435,9 @@ func c03SizeSweeps(tier string) []*core.Scenario {
 	src = append(src, c02Scenario("quick"))
 	for _, sc := range src {
 		sc := sc
+		if sc.Name == "statement_in_mode_switching_file" {
+			continue // multi-statement programs without a baseline program: sizes under mode switches are C17's mode_sizing facet
+		}
 		build := sc.Build
 		out = append(out, &core.Scenario{
 			Name: "size_" + sc.Name, Bound: -1,
@@ -442,7 +445,7 @@ func c03SizeSweeps(tier string) []*core.Scenario {
 			Bounds: sc.Bounds,
 			Build: func(c *core.Chooser) *core.Case {
 				cs := build(c)
-				if cs == nil {
+				if cs == nil || len(cs.Srcs) < 2 {
 					return nil
 				}
 				cs.Judge = func(rs []*core.Result) core.Verdict {
